@@ -83,6 +83,7 @@ fn add(a: &mut RunStats, b: &RunStats) {
     a.fn_seams += b.fn_seams;
     a.switches_at_fn_entry += b.switches_at_fn_entry;
     a.sink_error_fired += b.sink_error_fired;
+    a.sink_reject_fired += b.sink_reject_fired;
     a.sink_panic_fired += b.sink_panic_fired;
     a.nested_fired += b.nested_fired;
     a.ops_after_fault_same_thread += b.ops_after_fault_same_thread;
@@ -510,21 +511,33 @@ fn batch(args: &[String]) -> i32 {
     let known_list: Vec<String> = known.iter().map(|k| k.0.clone()).collect();
     let exe = std::env::current_exe().unwrap();
 
-    let chunk = (runs + jobs - 1) / jobs;
-    let mut children = Vec::new();
-    let mut first = 0;
-    while first < runs {
-        let n = chunk.min(runs - first);
-        let ch = Command::new(&exe)
+    // --chunk K: many short-lived worker processes of K runs each ("cold" processes: state a
+    // process accumulates on first use of a type is young in every one of them); default: one
+    // long-lived worker per job
+    let chunk = arg(args, "--chunk").and_then(|s| s.parse::<u64>().ok()).filter(|&k| k > 0).unwrap_or((runs + jobs - 1) / jobs);
+    let spawn = |first: u64, n: u64| {
+        Command::new(&exe)
             .args(["worker", &src, &seed.to_string(), &first.to_string(), &n.to_string(), &known_list.join(",")])
             .stdout(Stdio::piped())
             .stderr(Stdio::inherit())
             .spawn()
-            .expect("spawn worker");
-        children.push((first, n, ch));
+            .expect("spawn worker")
+    };
+    let mut pending = std::collections::VecDeque::new();
+    let mut first = 0;
+    while first < runs {
+        let n = chunk.min(runs - first);
+        pending.push_back((first, n));
         first += n;
     }
-    let recheck_n = chunk.min(runs).min(2000);
+    let mut running = std::collections::VecDeque::new();
+    while running.len() < jobs as usize {
+        match pending.pop_front() {
+            Some((f, n)) => running.push_back((f, n, spawn(f, n))),
+            None => break,
+        }
+    }
+    let recheck_n = runs.min(2000);
     let mut total = RunStats::default();
     let (mut nruns, mut nontrivial_runs, mut fault_then) = (0u64, 0u64, 0u64);
     let mut traces = BTreeSet::new();
@@ -534,8 +547,11 @@ fn batch(args: &[String]) -> i32 {
     let mut known_seen: Vec<(String, u64, Option<Violation>)> = Vec::new();
     let mut failures = Vec::new();
     let mut first_chunk_out: Option<WorkerOut> = None;
-    for (first, n, ch) in children {
+    while let Some((first, n, ch)) = running.pop_front() {
         let o = ch.wait_with_output().expect("worker");
+        if let Some((f2, n2)) = pending.pop_front() {
+            running.push_back((f2, n2, spawn(f2, n2)));
+        }
         let w: WorkerOut = match serde_json::from_slice(&o.stdout) {
             Ok(w) => w,
             Err(e) => {
@@ -569,7 +585,7 @@ fn batch(args: &[String]) -> i32 {
     // determinism re-check: the first seeds executed twice more, each in a
     // fresh process; the hashes cover every operation line of every run
     let mut deterministic = serde_json::Value::Null;
-    if first_chunk_out.as_ref().map(|fc| fc.failure.is_none() && fc.runs >= recheck_n).unwrap_or(false) {
+    if first_chunk_out.is_some() && failures.is_empty() {
         let a = worker_hash_prefix(&exe, &src, seed, recheck_n, &known_list);
         let b = worker_hash_prefix(&exe, &src, seed, recheck_n, &known_list);
         deterministic = json!({"runs_rechecked": recheck_n, "identical": a.is_some() && a == b});
@@ -663,7 +679,7 @@ fn batch(args: &[String]) -> i32 {
         "thread_switches_at_an_allocation_inside_library_code": total.switches_at_alloc,
         "function_entry_seams": total.fn_seams,
         "thread_switches_at_a_function_entry_inside_library_code": total.switches_at_fn_entry,
-        "faults_fired": {"sink_error": total.sink_error_fired, "sink_panic_caught": total.sink_panic_fired, "reentrant_display_from_sink": total.nested_fired},
+        "faults_fired": {"sink_error": total.sink_error_fired, "sink_rejects_one_write": total.sink_reject_fired, "sink_panic_caught": total.sink_panic_fired, "reentrant_display_from_sink": total.nested_fired},
         "stalls": total.stalls,
         "determinism": deterministic,
         "known_findings_seen": known_seen.iter().map(|k| json!({"kind": k.0, "occurrences": k.1})).collect::<Vec<_>>(),
